@@ -363,6 +363,8 @@ def run(ctx):
                             highs = True
                 if lows and highs:
                     vals.append(n)
+                elif _validates_by_helper(P, fn, kids_[0], cd):
+                    vals.append(n)
             for u in uses + [_first_cfg(fn, l.c[2]) for l in loops]:
                 if u is None:
                     continue
@@ -606,3 +608,46 @@ def _mapped_bounds(ctx):
             ctx.inconclusive("R3.extent", "mapped-bounds|%s:%s" % (PR, name), P.where(fn.body), "abstract execution of %s" % name,
                              "%s: %s" % (type(ex).__name__, ex))
     ctx.floor("C04 mapped-bounds scenarios", n, 500)
+
+
+def _validates_by_helper(P, fn, cond, cd):
+    """`if (!in_bounds(dec, count, LIMIT)) <exit>`: the condition is (the negation of) a call of a helper of
+    the program that receives the count and a constant limit; executed abstractly, the helper answers
+    false for -1, LIMIT + 1 and INT32_MAX and true for 0 and LIMIT - whatever it is called."""
+    from ..rules import sem
+    c = cond.strip_casts()
+    neg = False
+    while c is not None and c.k == "UnaryOperator" and c.op == "!":
+        neg = not neg
+        c = c.c[0].strip_casts()
+    if c is None or c.k != "CallExpr" or not c.callee or not neg:
+        return False
+    cands = [g for g in P.by_name.get(c.callee, []) if g.file == fn.file] or P.by_name.get(c.callee, [])
+    if not cands:
+        return False
+    g = cands[0]
+    args = c.args()
+    ci = [i for i, a in enumerate(args) if a.strip_casts().k == "DeclRefExpr" and a.strip_casts().get("d") == cd]
+    ks = [a.cv for a in args if a.cv is not None and a.cv > 0]
+    if len(ci) != 1 or not ks:
+        return False
+    K = ks[0]
+
+    def ask(v):
+        av = []
+        for i, a in enumerate(args):
+            if i == ci[0]:
+                av.append(v)
+            elif a.cv is not None:
+                av.append(a.cv)
+            elif "*" in (a.strip().t or ""):
+                av.append(sem.Ptr("arg%d" % i, 0, 1))
+            else:
+                av.append(sem.U)
+        try:
+            outs = sem.run(P, g, av, single=False, max_forks=16, hooks={"snprintf": lambda ev, a, it: 0, "carquet_error_set": lambda ev, a, it: None})
+        except sem.Inconclusive:
+            return None
+        rs = set(r for r, _e, _h in outs)
+        return rs.pop() if len(rs) == 1 else None
+    return ask(-1) == 0 and ask(K + 1) == 0 and ask(0x7FFFFFFF) == 0 and ask(0) == 1 and ask(K) == 1
